@@ -233,12 +233,17 @@ class DatasetSpec(object):
 # Random generation
 # ------------------------------------------------------------------------------------------
 
-def geometry(rng, nc, n_shanks=1, jitter=True, ties=False):
-    """Distinct 2-D positions; shank s is translated along x."""
+def geometry(rng, nc, n_shanks=1, jitter=True, ties=False, interleave=False):
+    """Distinct 2-D positions; shank s is translated along x (far apart), or, with interleave, the
+    shanks are interleaved sites of one dense grid (neighbours belong to different shanks)."""
     per = -(-nc // n_shanks)
     pos = np.zeros((nc, 2))
     shanks = np.zeros(nc, dtype=np.int32)
     for c in range(nc):
+        if interleave:
+            pos[c] = [(c % 2) * 16., (c // 2) * 20.]
+            shanks[c] = c % n_shanks
+            continue
         s, k = divmod(c, per)
         pos[c] = [s * 200. + (k % 2) * 16., (k // 2) * 20.]
         shanks[c] = s
@@ -271,7 +276,7 @@ def random_spec(rng, **o):
     if not g('permute_map', True):
         s.channel_map = np.arange(nc, dtype=np.int64)
     nsh = g('shanks', 0)
-    pos, sh = geometry(rng, nc, max(1, nsh), ties=g('ties', False))
+    pos, sh = geometry(rng, nc, max(1, nsh), ties=g('ties', False), interleave=g('interleave', False))
     s.positions = pos
     s.shanks = sh if nsh else None
     if g('probes', False):
